@@ -4,6 +4,7 @@ package grid
 // validated and the raw action cache and the CAS are independent.
 
 import (
+	"strings"
 	"bytes"
 	"fmt"
 	"net/http"
@@ -74,6 +75,29 @@ func (f *fx) c15Get(front, instance, key string) int32 {
 	return ar.ExitCode
 }
 
+// c15GetZ: the same HTTP lookup by a client that also accepts zstd; the
+// action cache has no compressed representation, so the answer must be the
+// one a plain GET gets. Returns -4 when a compressed body comes back.
+func (f *fx) c15GetZ(instance, key string) int32 {
+	req := httptest.NewRequest(http.MethodGet, acURL(instance, key), nil)
+	req.Header.Set("Accept-Encoding", "zstd")
+	rec := f.httpDo(req)
+	if rec.Code == 404 {
+		return -1
+	}
+	if rec.Code != 200 {
+		return -2
+	}
+	if rec.Header().Get("Content-Encoding") == "zstd" {
+		return -4
+	}
+	ar := &pb.ActionResult{}
+	if proto.Unmarshal(rec.Body.Bytes(), ar) != nil {
+		return -2
+	}
+	return ar.ExitCode
+}
+
 func TestC15(t *testing.T) {
 	mode := vlib.Param("MODE", "zstd")
 	rep := vlib.NewReport("C15", "E4:instances/"+mode)
@@ -100,6 +124,11 @@ func TestC15(t *testing.T) {
 							rep.Eval()
 							got := f.c15Get(rfront, rinst, key)
 							id := fmt.Sprintf("%s; read via %s under instance %q -> %d", cfg, rfront, rinst, got)
+							if rfront == "http" {
+								if gz := f.c15GetZ(rinst, key); gz != got {
+									rep.Violate("C15 HTTP action-cache GET answers differently to a client that accepts zstd", fmt.Sprintf("%s (with Accept-Encoding: zstd -> %d; -1 miss, -4 compressed body)", id, gz), nil)
+								}
+							}
 							k := fmt.Sprintf("C15 mangling=%v validation=%v write=%s read=%s", mangle, validate, wfront, rfront)
 							wantHit := sameSpace && (!mangle || normInst(rinst) == normInst(winst))
 							switch {
@@ -150,6 +179,55 @@ func TestC15(t *testing.T) {
 				if rec.Code == 200 {
 					rep.Violate("C15 CAS blob served from the action cache", fmt.Sprintf("GET %s -> 200", acURL(inst, h)), nil)
 				}
+			}
+			// one hash used as CAS digest, as validated and as raw action key at once (an
+			// action key IS the digest of the Action message in the CAS): every space keeps its own value
+			for ci, order := range []string{"cas,grpc,http", "http,grpc,cas", "grpc,cas,http", "cas,http", "http,cas", "grpc,cas"} {
+				cd := vlib.Bytes(fmt.Sprintf("c15/collide/%s/%v/%v/%d", mode, mangle, validate, ci), 300+ci, false)
+				ch := vlib.Sha(cd)
+				exG, exH := int32(5000+ci), int32(6000+ci)
+				stored := map[string]bool{}
+				for _, step := range strings.Split(order, ",") {
+					switch step {
+					case "cas":
+						f.upload(upReq{path: "http", hash: ch, size: int64(len(cd)), wire: cd, abortAfter: -1})
+					case "grpc":
+						f.c15Put("grpc", "", ch, exG)
+					case "http":
+						f.c15Put("http", "", ch, exH)
+					}
+					stored[step] = true
+				}
+				rep.Eval()
+				cfg := fmt.Sprintf("mode=%s mangling=%v http_validation=%v one hash stored as %s", mode, mangle, validate, order)
+				wantG, wantH := int32(-1), int32(-1)
+				if validate { // one shared validated space: the later write wins
+					last := int32(-1)
+					for _, step := range strings.Split(order, ",") {
+						if step == "grpc" {
+							last = exG
+						} else if step == "http" {
+							last = exH
+						}
+					}
+					wantG, wantH = last, last
+				} else {
+					if stored["grpc"] {
+						wantG = exG
+					}
+					if stored["http"] {
+						wantH = exH
+					}
+				}
+				gotG, gotH, gotHZ := f.c15Get("grpc", "", ch), f.c15Get("http", "", ch), f.c15GetZ("", ch)
+				if gotG != wantG || gotH != wantH || gotHZ != wantH {
+					rep.Violate("C15 colliding hash: action-cache answer depends on another key space", fmt.Sprintf("%s: gRPC get -> %d (want %d), HTTP get -> %d, HTTP get accepting zstd -> %d (want %d)", cfg, gotG, wantG, gotH, gotHZ, wantH), nil)
+				}
+				rec := f.httpDo(httptest.NewRequest(http.MethodGet, "/cas/"+ch, nil))
+				if stored["cas"] != (rec.Code == 200) || (rec.Code == 200 && !bytes.Equal(rec.Body.Bytes(), cd)) {
+					rep.Violate("C15 colliding hash: CAS answer depends on the action cache", fmt.Sprintf("%s: GET /cas -> %d", cfg, rec.Code), nil)
+				}
+				rep.Nontrivial("collide" + cfg)
 			}
 			for _, p := range f.takePanics() {
 				rep.Violate("C14 handler panic during C15", p, nil)
